@@ -37,10 +37,25 @@ type ATCase struct {
 	Rows     [][]ATVal
 	Locals   []ATLocalTx
 	Classes  []string
+	AutoStep int // auto_increment_increment of the server the case runs on (0: 1)
 }
 
 func (c *ATCase) cfgTok() string {
-	return fmt.Sprintf("v%do%da%d", b2i(c.Validate), b2i(c.OnlyCare), b2i(c.Schema != nil && c.Schema.Auto))
+	a := b2i(c.Schema != nil && c.Schema.Auto)
+	if a == 1 && c.AutoStep == 2 {
+		a = 2
+	}
+	return fmt.Sprintf("v%do%da%d", b2i(c.Validate), b2i(c.OnlyCare), a)
+}
+
+// worldFor picks the data source a case runs on: every second case with an AUTO_INCREMENT key runs on the
+// second data source of the process (another server, auto_increment_increment = 2); all others on the first
+func worldFor(w *ATWorld, cs *ATCase, i int) *ATWorld {
+	if cs.Schema != nil && cs.Schema.Auto && i%2 == 1 {
+		cs.AutoStep = 2
+		return GetATWorldB()
+	}
+	return w
 }
 
 func (c *ATCase) headerToks() []string {
